@@ -10,6 +10,11 @@ CHECKS = {
    note="Trusted: Coq kernel + vm_compute; the fail-closed translator harness/translate_tables.py; extraction/driver for the correspondence; gcc-built table harness for the failing-input search. Axioms: none (Closed under the global context).",
    technique="Coq theorems over source-regenerated tables + exhaustive model/impl correspondence",
    design="5 C11"),
+ "C07": dict(
+   text="Proof: the line-by-line Gallina model of propagate_constraints (outer key loop, two frontier loops per round, the assertions, the four assignment loops) is proved, for every symmetric link graph whose targets are keys, to terminate without assertion and to return for every key exactly the even-parity and odd-parity connected items (induction over an inductive path relation, fuel sufficiency by a NoDup/length measure); order independence is a corollary. The extracted model is compared with the real function on random graphs every run.",
+   note="Trusted: Coq kernel; extraction + driver; the harness's injective numbering of int/tuple items; CPython set semantics (iteration order is quantified away). Axioms: none.",
+   technique="Coq proof of a worklist-closure model + extracted-model/implementation correspondence",
+   design="5 C07, Appendix A"),
 }
 
 checks = []
